@@ -314,6 +314,16 @@ pub fn cb_opt_unit(lex: &mut L) -> Option<()> { if first(lex) == b'q' && lex.sli
         Var('W', [R('w+', cb='cb_bump_reject', cb_kind='bool', cb_fn='cb_bump_reject')]),
         Var('Q', [R('q+', cb='cb_opt_unit', cb_kind='option_unit', cb_fn='cb_opt_unit')]),
         Var('Dot', [T('.')]), Var('Bang', [T('!')])], tags=('cb', 'cb_err', 'no_consumption_rule', 'quick')))
+    # the other two spellings of the error callback (named argument, inline closure) and a callback given as a path
+    D.append(Def('cb_err_named', error='MyErr', error_cb='callback = cb_err', prelude=CB_PRELUDE + '''
+pub fn cb_err(lex: &mut L) -> MyErr { MyErr::Bad(lex.slice().len() as u8) }
+pub mod cbs { use super::*; pub fn cb_odd(lex: &mut L) -> bool { lex.slice().len() % 2 == 1 } }
+''', variants=[Var('A', [R('a+', cb='cbs::cb_odd', cb_kind='bool', cb_fn='cb_odd')]), Var('B', [T('b')])], tags=('cb', 'cb_err', 'quick')))
+    D.append(Def('cb_err_inline', error='MyErr', error_cb='|lex| cb_err(lex)', prelude=CB_PRELUDE + '''
+pub fn cb_err(lex: &mut L) -> MyErr { MyErr::Bad(lex.slice().len() as u8) }
+pub fn cb_optv(lex: &mut L) -> Option<u8> { if lex.slice().len() == 2 { None } else { Some(first(lex)) } }
+''', variants=[Var('O', [R('o+', cb='cb_optv', cb_kind='option', cb_fn='cb_optv')], field='u8'), Var('B', [T('b')])],
+        tags=('cb', 'cb_err', 'quick')))
     # a look-ahead pattern and a second pattern that matches its text plus exactly the byte confirming the look-ahead:
     # the longer match (and its callback) must win
     D.append(Def('cb_look_confirm', error='MyErr', prelude=CB_PRELUDE + '''
